@@ -1,11 +1,20 @@
 #[cfg(test)]
 use portable_atomic::{AtomicBool, Ordering};
 use std::borrow::Cow;
+#[cfg(not(indicatif_verif))]
 use std::sync::{Arc, Condvar, Mutex, MutexGuard, Weak};
+#[cfg(indicatif_verif)]
+use verif_simrt::sync::{Arc, Condvar, Mutex, MutexGuard, Weak};
 use std::time::Duration;
+#[cfg(not(indicatif_verif))]
 #[cfg(not(target_arch = "wasm32"))]
 use std::time::Instant;
+#[cfg(not(indicatif_verif))]
 use std::{fmt, io, thread};
+#[cfg(indicatif_verif)]
+use std::{fmt, io};
+#[cfg(indicatif_verif)]
+use verif_simrt::{thread, time::Instant};
 
 #[cfg(test)]
 use once_cell::sync::Lazy;
